@@ -2,7 +2,7 @@
    Model/Find.v: the signature automaton of cabd_find (as repaired), the candidate it yields, the search loop with
    cabd_read_headers abstracted to [parse]. *)
 From Coq Require Import List NArith.
-From MSP Require Import Model.Find Proofs.FindP.
+From MSP Require Import Model.Find Proofs.FindP Proofs.FindComplete.
 Import ListNotations. Local Open Scope N_scope.
 
 (* the scan gives the same candidate whatever the sizes of the buffers the file is read in (the automaton state is carried
@@ -26,3 +26,33 @@ Theorem C14_find_sound : forall bytes parse salvage fuel res,
   cab_find bytes parse salvage fuel 0 [] = Some res -> Forall (fun o => parse o = true) res.
 Proof. exact find_sound. Qed.
 Print Assumptions C14_find_sound.
+
+(* completeness of the whole loop: every position of the file that carries the signature with its 20 header bytes, passes the
+   plausibility filter and parses as a cabinet is reported, unless it lies inside the extent (bytes 8-11 of its header) of a cabinet
+   reported before it - for every file, every header parser, both salvage settings, whenever the loop returns at all *)
+Theorem C14_find_complete : forall bytes parse salvage fuel res, cab_find bytes parse salvage fuel 0 [] = Some res ->
+  forall q, sig_at bytes q -> accepted bytes parse salvage q = true ->
+            (forall p, In p res -> p < q -> p + cablen_at bytes p <= q) -> In q res.
+Proof. exact find_complete. Qed.
+Print Assumptions C14_find_complete.
+
+(* the scan alone: from the searching state it stops exactly at the first signature that has 16 more bytes behind it *)
+Theorem C14_scan_stops_at_first_signature : forall l pos,
+  match first_cand l pos a0 with
+  | inl (p, cl, fo) => exists j tl, l = j ++ tl /\ p = pos + N.of_nat (length j) /\ sig_here tl = true /\ hdr tl = Some (cl, fo) /\ nosig (j ++ MSC) = true
+  | inr _ => forall j tl, l = j ++ tl -> sig_here tl = true -> hdr tl = None
+  end.
+Proof. exact first_cand_spec. Qed.
+Print Assumptions C14_scan_stops_at_first_signature.
+
+(* the hypotheses are satisfiable: two small "cabinets" behind junk that ends in a broken signature, a look-alike in between whose
+   header does not parse; the second cabinet sits inside nothing and is reported *)
+Definition c14_file : list N :=
+  [1; 77; 83; 77] ++ MSCF ++ [0; 0; 0; 0; 24; 0; 0; 0; 0; 0; 0; 0; 20; 0; 0; 0] ++ [9; 9; 9; 9] ++
+  [77; 83; 67] ++ MSCF ++ [0; 0; 0; 0; 200; 0; 0; 0; 0; 0; 0; 0; 20; 0; 0; 0] ++
+  [5] ++ MSCF ++ [0; 0; 0; 0; 22; 0; 0; 0; 0; 0; 0; 0; 20; 0; 0; 0] ++ [7; 7].
+Definition c14_parse (o : N) : bool := (o =? 4) || (o =? 52).
+Example C14_find_complete_applies :
+  cab_find c14_file c14_parse false 10 0 [] = Some [4; 52] /\
+  sig_at c14_file 52 /\ accepted c14_file c14_parse false 52 = true /\ sig_at c14_file 31 /\ accepted c14_file c14_parse false 31 = false.
+Proof. vm_compute. repeat split. Qed.
